@@ -250,6 +250,18 @@ func c07Decorate(p *synth.Project, r interface {
 			}
 		}
 	}
+	// the same for parameters: a description on a parameter of a named type belongs to the parameter
+	for ci := range p.Controllers {
+		for mi := range p.Controllers[ci].Methods {
+			for pi := range p.Controllers[ci].Methods[mi].Params {
+				pr := &p.Controllers[ci].Methods[mi].Params[pi]
+				if pr.In != "ctx" && pr.In != "body" && pr.Type.Base().K == "named" && r.Intn(2) == 0 {
+					pr.Descr = "Usage-site text for parameter " + pr.GoName
+					n++
+				}
+			}
+		}
+	}
 	return n
 }
 
@@ -278,6 +290,9 @@ func c07Strip(p *synth.Project, name string) (*synth.Project, map[string]bool) {
 				pr := &q.Controllers[ci].Methods[mi].Params[pi]
 				if pr.Type.Base().K == "named" && pr.Validate != "" && pr.Validate != "required" {
 					pr.Validate = ""
+				}
+				if pr.Type.Base().K == "named" && pr.In != "body" {
+					pr.Descr = ""
 				}
 			}
 		}
